@@ -206,7 +206,17 @@ def async_suite(chk, n_graphs, variants, max_nodes=4, nproc=8, gen=None, model_s
         for G in pending:
             for vn, ov in variants.items():
                 j = dict(id=f"{G['gid']}:{vn}", cfg=G["cfg"], drive="reset_step", steps=G["cfg"]["steps"], record=dict(FULLREC))
-                j.update(ov); jobs.append(j)
+                j.update(ov)
+                if j.get("between") == "auto":
+                    # change the expected delay of one node and of one non-skipped connection (phases downstream move)
+                    import copy
+                    rr = random.Random(G["gid"] * 7919 + 13); cfg2 = copy.deepcopy(G["cfg"]); bt = {}
+                    n = rr.choice(sorted(cfg2["nodes"])); cfg2["nodes"][n]["exp"] = cfg2["nodes"][n]["exp"] + rr.choice([1, 2, 3]); bt[n] = cfg2["nodes"][n]["exp"]
+                    cs = sorted(k for k, c in cfg2["conns"].items() if not c["skip"])
+                    if cs:
+                        k = rr.choice(cs); cfg2["conns"][k]["exp"] = cfg2["conns"][k]["exp"] + rr.choice([1, 2]); bt[k] = cfg2["conns"][k]["exp"]
+                    j["between"] = bt; G["between"] = bt; G["cfg_after"] = cfg2
+                jobs.append(j)
         res = run_jobs(jobs, nproc=nproc, per_job_timeout=per_job_timeout)
         again = []
         for G in pending:
@@ -253,3 +263,39 @@ def canon_neg(ep):
     for o in ep.get("obs", []):
         for m in o["wins"]: o["wins"][m] = [[max(e[0], -1)] + e[1:] for e in o["wins"][m]]
     return ep
+
+
+# ------------------------------------------------------------------ supported class: does the dataflow itself reach the requested steps?
+def cfg_phases(cfg):
+    """phases without rex (longest expected-delay path over non-skipped connections), for configurations whose run did not finish"""
+    def ph(n, depth=0):
+        if depth > 60: raise RecursionError
+        best = 0
+        for c, cc in cfg["conns"].items():
+            if cc["in"] == n and not cc["skip"]:
+                best = max(best, ph(cc["out"], depth + 1) + cfg["nodes"][cc["out"]]["exp"] + cc["exp"])
+        return best
+    nph = {n: ph(n) for n in cfg["nodes"]}
+    cph = {c: nph[cc["out"]] + cfg["nodes"][cc["out"]]["exp"] + cc["exp"] for c, cc in cfg["conns"].items()}
+    return nph, cph
+
+
+def model_reaches(cfg, steps):
+    """run the extracted actor model (confluent: being stuck does not depend on the schedule) with rex's 10 look-ahead ticks per node and
+    generous bounds on the free-running nodes: does the supervisor reach `steps`+1 observations?  False = the graph needs more look-ahead
+    than rex provides (outside the supported class, see DESIGN C05), so a watchdog timeout on it is not a violation."""
+    nph, cph = cfg_phases(cfg)
+    sup = cfg["sup"]; Ps = cfg["nodes"][sup]["period"]
+    horizon = (steps + 3) * Ps + 4 * max(max(n["delays"]) for n in cfg["nodes"].values()) * (steps + 3)
+    lim = {n: (steps + 1 if n == sup else int(horizon // nd["period"]) + 30) for n, nd in cfg["nodes"].items()}
+    m = run_model([(cfg, nph, cph, lim, 1)])[0]
+    return len(m["rows"][sup]) >= steps + 1
+
+
+def unsupported_hang(chk, cfg, r):
+    """a run that did not finish on a graph whose dataflow needs more look-ahead than rex provides is outside the supported class (DESIGN C05)"""
+    if not str(r.get("error", "")).startswith("HANG"): return False
+    try: reach = model_reaches(cfg, cfg["steps"])
+    except RecursionError: reach = False
+    if not reach: chk.feat("outside-supported-class(model-needs-more-look-ahead)")
+    return not reach
